@@ -342,11 +342,12 @@ func c24Routing(c *engine.Ctx) {
 		resD = engine.Describe(engine.Args(dec.Common())[0])
 	}
 	var bufV ssa.Value
-	for _, call := range engine.CallsTo(hr, false, "(*rpc.Engine).NotifyResult", "(*rpc.Engine).NotifyError") {
+	for _, ns := range notifySites(hr) {
+		call := ns.call
 		n++
-		id := engine.Describe(engine.Args(call.Common())[1])
+		id := engine.Describe(ns.id)
 		c.Check(dec != nil && id == resD+".RequestMessageID", "C24.R5", "handleResult/"+call.Common().StaticCallee().Name()+"/routes-by-req-msg-id", call.Pos(), "a result must complete the call whose message id the rpc_result names (routes to %s)", id)
-		if call.Common().StaticCallee().Name() == "NotifyResult" {
+		if call.Common().StaticCallee().Name() == "NotifyResult" && call.Parent() == hr {
 			bufV = engine.Args(call.Common())[2]
 		}
 	}
@@ -370,6 +371,36 @@ func c24Routing(c *engine.Ctx) {
 		c.Check(ok, "C24.R5", "handleResult/id-matches-buffer", idCmp.Pos(), "the id tested for rpc_error and the buffer handed to the caller's decoder must belong together on every path (a gzipped rpc_error must be recognised as an error, not decoded as the result): %s", why)
 	}
 	c.Floor("C24.R5", 3, n)
+}
+
+// notifySite is a call of Engine.NotifyResult / NotifyError made by fn or by a
+// same-package helper fn calls; id is the message id it routes to, in fn's
+// terms (a helper's parameter is replaced by the argument fn passes).
+type notifySite struct {
+	call ssa.CallInstruction
+	id   ssa.Value
+}
+
+func notifySites(fn *ssa.Function) []notifySite {
+	var out []notifySite
+	for _, f := range withHelpers(fn, 1) {
+		for _, call := range engine.CallsTo(f, false, "(*rpc.Engine).NotifyResult", "(*rpc.Engine).NotifyError") {
+			id := engine.Args(call.Common())[1]
+			if f == fn || f.Parent() != nil {
+				out = append(out, notifySite{call, id})
+				continue
+			}
+			// in a helper: one site per call of the helper in fn
+			for _, site := range staticCallsOf(fn, f) {
+				if a := argOfParam(id, site); a != nil {
+					out = append(out, notifySite{call, a})
+				} else {
+					out = append(out, notifySite{call, id})
+				}
+			}
+		}
+	}
+	return out
 }
 
 // lockRecvOf returns the receiver of the first Lock call in fn described by d.
